@@ -590,7 +590,16 @@ def conv_stubs(u):
     return '\n'.join(o)
 
 def tables_section(rows):
-    return ''
+    var = {'MockExpectedCall_c': 'gExpectedCall', 'MockActualCall_c': 'gActualCall', 'MockSupport_c': 'gMockSupport'}
+    o = ['', '# ================================================================ the three tables: every slot holds the forwarder that carries the',
+         '# contract derived from the slot\'s NAME (fields in the order of MockSupport_c.h; a positional initialiser that drifts from the',
+         '# header order, or two same-signature entries swapped - disable/enable, setBoolData/setIntData - fails here).  Emitter rule R14b',
+         '# emits the real initialisers; statics keep their initial values in this proof.',
+         '@proof tables.slots', '@define VERIF_TABLE_INITS', '@nondet-static off', '@harness', 'void verif_harness(void)', '{']
+    for table, field, impl in rows:
+        o.append('  __CPROVER_assert(%s.%s == %s, "%s.%s is %s");' % (var[table], field, impl, table, field, impl))
+    o += ['  VERIF_CANARY', '}', '@end']
+    return '\n'.join(o)
 
 def receiver_spec(out):
     return ''
